@@ -300,7 +300,7 @@ theorem disagg_spec_bridge {t out : List Cell} {res : Nat} {weights : Option (Li
 
 /-- **aggregate_disagg_partial.** Disaggregate a well-formed triangle (`disaggWF`; one period
 resolution `L` in all slices) and aggregate the result back with C08's model of `aggregate`
-(`periodRes = (q, s)` standardising to `L` months, no evaluation resolution, a month-end
+(`periodRes = (L, "month")`, no evaluation resolution, a month-end
 `periodOrigin` on whose `L`-grid all period starts lie — the harness passes `first ps − 1 day`).
 Unless the triangle was returned as is:
 * every aggregated cell sits exactly on the coordinates and metadata of an input cell that has an
@@ -311,14 +311,13 @@ Not included (the OPEN statement below): that each such cell occurs exactly once
 slice: `aggregate_disagg_slice_keys`), that the aggregated cell has exactly the selected keys, and
 the bridge to the executable `aggBackSpec`. -/
 theorem aggregate_disagg_partial {tr : Transc} {t out back : List Cell} {res : Nat}
-    {weights : Option (List Num)} {fields : Option (List String)} {L q : Int} {s : String}
+    {weights : Option (List Num)} {fields : Option (List String)} {L : Int}
     {origin : Date} {a : AggArgs}
     (hwf : disaggWF res t = true) (hL : ∀ sl ∈ Triangle.slices t, periodResolution sl.2 = .ok L)
     (hd : disaggregateExperience t res weights fields = .ok out)
     (hov : origin.valid = true) (hoe : origin.isMonthEnd = true)
     (hgrid : ∀ c ∈ t, ∃ z : Int, monthToId c.ps = monthToId origin + z * L + 1)
-    (hst : standardizeResolution q s = .ok (L, .month))
-    (hp : a.periodRes = some (q, s)) (he : a.evalRes = none) (ho : a.periodOrigin = origin)
+    (hp : a.periodRes = some (L, "month")) (he : a.evalRes = none) (ho : a.periodOrigin = origin)
     (hagg : aggregate tr out a = .ok back) :
     out = t ∨
     ((∀ o ∈ back, ∃ c ∈ t, obsSubs c res (L / (res : Int)).toNat ≠ [] ∧
@@ -332,7 +331,8 @@ theorem aggregate_disagg_partial {tr : Transc} {t out back : List Cell} {res : N
       ∃ o ∈ back, o.md = c.md ∧ o.ps = c.ps ∧ o.pe = c.pe ∧ o.ev = c.ev)) := by
   rcases disaggregateExperience_core hd with h1 | ⟨ws, hws, hcore⟩
   · exact .inl h1
-  · exact .inr (aggregate_disagg_core hwf hL hws hcore hov hoe hgrid hst hp he ho hagg)
+  · exact .inr (aggregate_disagg_core hwf hL hws hcore hov hoe hgrid
+      (rfl : standardizeResolution L "month" = .ok (L, .month)) hp he ho hagg)
 
 -- OPEN aggregate_disagg
 --   … → back = the cells of t with an observable sub-period, restricted to the selected fields, as
@@ -344,9 +344,7 @@ theorem aggregate_disagg_partial {tr : Transc} {t out back : List Cell} {res : N
 -- non-empty group, then `sumTriangles`); (2) the aggregated cell carries exactly the selected keys
 -- (C09: keys of `summarizeCellValues` = `valueKeys`) and equal VALUES rather than equal `at`
 -- readings (int inputs come back as floats; arrays elementwise); (3) the sorted order used by the
--- zip in `aggBackSpec`; (4) `standardizeResolution L "month" = .ok (L, .month)` itself is not
--- kernel-checkable (String.toLower/splitOn do not reduce; same gap as C12's OPEN) — taken as a
--- hypothesis. Checked on the implementation by `aggBackSpec` in every run.
+-- zip in `aggBackSpec`. Checked on the implementation by `aggBackSpec` in every run.
 
 /-! ### 3. accident_quarter_to_policy_year -/
 
